@@ -86,12 +86,24 @@ class World:
                 o = self.obj(p, via)
                 o.to(torch.int64) if how == "to(dtype)" else o.to(torch.zeros(1, dtype=torch.int64))
             elif op == "Simulate":
+                # every other simulation states the initial state explicitly, with the price as a Python INTEGER (admissible:
+                # "scalar initial states"); the declared dtype decides the dtype of the series, not the spelling of the state
+                self.nsim = getattr(self, "nsim", 0) + 1
+                kw: Dict[str, Any] = {}
+                if self.nsim % 2 == 0:
+                    kw["init_state"] = (1,) if (p == "p1" or self.second == "volatility") else (1, 0.04)
                 if via == "derivative":
-                    self.deriv[p].simulate(n_paths=2)
+                    self.deriv[p].simulate(n_paths=2, **kw)
                 else:
-                    self.prim[p].simulate(n_paths=2, time_horizon=1.0)
+                    self.prim[p].simulate(n_paths=2, time_horizon=1.0, **kw)
             elif op == "RegisterBuffer":
-                self.prim[p].register_buffer(self.real(p, how), torch.ones(2, 3, dtype=DT[d]))
+                name = self.real(p, how)
+                have = dict(self.prim[p].named_buffers())
+                if name != "spot" and "spot" in have and have["spot"].dtype == DT[d]:
+                    # the SAME tensor object under a second name (an alias such as a "mid" price): still one buffer per name
+                    self.prim[p].register_buffer(name, have["spot"])
+                else:
+                    self.prim[p].register_buffer(name, torch.ones(2, 3, dtype=DT[d]))
             elif op == "SetDefault":
                 torch.set_default_dtype(DT[d])
             else:
